@@ -5,6 +5,7 @@ from gen import *
 from runner import Part, run_sharded
 import lc
 import fake_kernel
+import vclock  # noqa: F401,E402  (clock trampolines go in before the library binds anything)
 import isotp
 from C19 import parse_state, tok, GEN_KEYS
 
